@@ -185,4 +185,9 @@ def build_contracts(project: Project) -> Dict[str, Contract]:
                    [Clause("strict-cap", lambda a: [("eq", a["mode"], K(0))],
                            lambda r, a: [("within", ITEM(r, 0), a["text"], K(STRICT_CAP))])],
                    colour_params=("text", "bg"))
-    return {BSL: bsl, GD: gd, GAC: gac, STRICT: strict, RECURSIVE: recursive, RELAXED: relaxed, CAF: caf}
+    out = {BSL: bsl, GD: gd, GAC: gac, STRICT: strict, RECURSIVE: recursive, RELAXED: relaxed, CAF: caf}
+    def template(q, params, keep=None):
+        posts = strat_posts if keep is None else (lambda r, a: [x for i, x in enumerate(strat_posts(r, a)) if i in keep])
+        return Contract(q, params, 2, [Clause("verdict", lambda a: [], posts)], colour_params=("text_rgb", "bg_rgb"))
+    out["$strategy_template"] = template
+    return out
